@@ -16,7 +16,7 @@ def FarmOK : Op → Prop
       farmIsBase farm = false ∧
       (merge = [] → a ≤ ft.2) ∧ (∀ mf t, m = some (mf, t) → a + sumX merge ≤ mf.2)
   | .claim _ _ x ft _ => x ≤ ft.2
-  | .mergeFarm _ l mf _ _ => sumX l ≤ mf.2
+  | .mergeFarm _ l mf _ _ _ => sumX l ≤ mf.2
   | _ => True
 
 /-- wrapped farm tokens over wrapped LP never record more wrapped LP than farm tokens, and they
